@@ -6,6 +6,7 @@ import (
 	"io"
 	"net/http"
 	"net/url"
+	"sort"
 	"strings"
 	"testing"
 
@@ -362,7 +363,13 @@ func runE2E(c ECase) *hx.Outcome {
 			spellings["name-recased"] = re
 		}
 	}
-	for kind, sp := range spellings {
+	kinds := make([]string, 0, len(spellings))
+	for kind := range spellings {
+		kinds = append(kinds, kind)
+	}
+	sort.Strings(kinds)
+	for _, kind := range kinds {
+		sp := spellings[kind]
 		code, l, err := listVia(w.HTTP.URL, "", sp)
 		if err != nil {
 			o.Failf(pid+":rest-error", "REST list as %s %q: %v", kind, sp, err)
@@ -375,12 +382,20 @@ func runE2E(c ECase) *hx.Outcome {
 		if l[0].Mailbox != box {
 			o.Failf(pid+":rest-mailbox-field", "REST list by %s %q reports mailbox %q, delivery used %q", kind, sp, l[0].Mailbox, box)
 		}
-		resp, err := http.Get(w.HTTP.URL + "/serve/mailbox/" + url.PathEscape(sp) + "/" + l[0].ID + "/source")
-		if err != nil || resp.StatusCode != 200 {
-			o.Failf(pid+":not-reachable-webui", "web UI source by %s %q: %v %v", kind, sp, resp, err)
-		}
-		if resp != nil {
-			resp.Body.Close()
+		// every route that reads a message takes the name through the same function
+		for _, route := range []string{"/serve/mailbox/%s/%s/source", "/serve/mailbox/%s/%s", "/serve/mailbox/%s/%s/html", "/api/v1/mailbox/%s/%s", "/api/v1/mailbox/%s/%s/source"} {
+			path := fmt.Sprintf(route, url.PathEscape(sp), l[0].ID)
+			resp, err := http.Get(w.HTTP.URL + path)
+			if err != nil || resp.StatusCode != 200 {
+				key := ":not-reachable-webui"
+				if strings.HasPrefix(route, "/api/") {
+					key = ":not-reachable-rest"
+				}
+				o.Failf(pid+key, "[%s] mail to <%s> is in mailbox %q, but GET %s (name spelled as %s %q) answers %v (err %v)", c.Naming, c.Addr, box, path, kind, sp, resp, err)
+			}
+			if resp != nil {
+				resp.Body.Close()
+			}
 		}
 		// POP3 login under this spelling (a space cannot be typed in USER)
 		if strings.Contains(sp, " ") {
